@@ -183,6 +183,8 @@ class Parser:
         return self.next_token()
 
     def _default_operand(self) -> bool:
+        if self._op_code is not OpCode.COLOR:
+            return self.trigger_error('"default" can only be set.')
         self._add_instruction(OpCode.MOVEQ, Operand.DEFAULT, Register.OPERAND)
         self._add_instruction(self._op_code)
         return self.next_token()
@@ -198,15 +200,20 @@ class Parser:
             self._add_instruction(OpCode.COLOR)
             return True
 
+        # A "begin ... end" block in an operand contains commands of its own,
+        # which leave their op code behind.
+        op_code = self._op_code
         if not self._operand():
             return False
-        self._add_instruction(self._op_code)
+        self._op_code = op_code
+        self._add_instruction(op_code)
 
         while self._current_token.is_a(TokenTypes.AND):
             self.next_token()
             if not self._operand():
                 return False
-            self._add_instruction(self._op_code)
+            self._op_code = op_code
+            self._add_instruction(op_code)
         return True
 
     def _operand(self) -> bool:
@@ -243,6 +250,10 @@ class Parser:
             operand = Operand.MZ_LIGHT
         elif self._current_token.is_any(
                 TokenTypes.BEGIN, TokenTypes.COLUMN, TokenTypes.ROW):
+            if self._op_code is not OpCode.COLOR:
+                return self.trigger_error(
+                    'Rows and columns not supported for {}'.format(
+                        self._op_code.name.lower()))
             if operand is not Operand.LIGHT:
                 return self.token_error(
                     '"{} not allowed with groups or locations.')
